@@ -279,8 +279,10 @@ Qed.
 Print Assumptions C10_tree_shape.
 
 (* (b) with a dealer whose cards Game::is_allowed accepts (Game::draw() takes them from
-   Game::deck()) the construction never panics and any fuel beyond max_history - length h
-   suffices, in particular max_history + 1; more fuel gives the same tree *)
+   Game::deck()) none of the MODELLED assertions fires (Path::from's length assert, Game::apply's
+   legality assert, the is_choice / is_chance asserts of explore_*; NOT modelled: WeightedIndex::new on an
+   all-zero or NaN strategy, a loaded strategy with another edge set, a missing abstraction) and any fuel
+   beyond max_history - length h suffices, in particular max_history + 1; more fuel gives the same tree *)
 Theorem C10_grow_enough_fuel : forall d hs g0 abs pk deal walker fuel h g,
   wf_holes d hs -> root d hs = Some g0 -> deal_ok d hs deal -> tree_path d g0 h g ->
   max_history < Z.of_nat (length h) + Z.of_nat fuel ->
